@@ -295,6 +295,43 @@ def rule_r4(facts, col, bodies=None):
             col.ok("C07.R4", key, body.where(joins[0]), "join loop over all handles, left only on exhaustion, on every path to return")
 
 
+TOKEN_ADT = "graph::CancellationToken"
+ATOMIC_WRITERS = {"store", "swap", "fetch_and", "fetch_or", "fetch_xor", "fetch_nand", "compare_exchange", "compare_exchange_weak",
+                  "fetch_update", "get_mut", "into_inner", "as_ptr", "from_ptr"}
+
+
+def rule_r5(facts, col):
+    """the cancel flag is monotone: the only writes of CancellationToken's flag store `true` (a cancellation, once requested,
+    cannot be erased - not by a runner 'resetting' the token on entry either)"""
+    n = 0
+    for body in facts.bodies:
+        for bb, t in body.calls():
+            f = t["f"]
+            name = f.get("name")
+            q = f.get("q") or ""
+            if name not in ATOMIC_WRITERS or "atomic::Atomic" not in q or not t["args"]:
+                continue
+            e = body.operand_expr(t["args"][0])
+            if not any(x.k == "field" and x.owner == TOKEN_ADT for x in walk(e)):
+                continue
+            n += 1
+            key = "%s:%s" % (body.q, name)
+            val = peel(body.operand_expr(t["args"][1]), through_try=False) if len(t["args"]) > 1 else None
+            if name in ("store", "swap", "fetch_or") and val is not None and val.k == "const" and val.v is True:
+                col.ok("C07.R5", key, body.where(bb), "flag only ever set to true")
+            else:
+                col.bad("C07.R5", key, body.where(bb),
+                        "the cancellation flag is written with something other than `true` (%s %s): a cancel() that happened before "
+                        "this point is erased, and a graph with an endless source then never stops" % (
+                            name, show(val)[:20] if val is not None else ""), {})
+    # the flag is reachable only through the token's private field
+    a = facts.adts.get(TOKEN_ADT)
+    if a:
+        for fld in a["variants"][0]["fields"]:
+            if fld.get("vis", "").startswith("pub") and "Atomic" in fld["ty"]["s"]:
+                col.bad("C07.R5", "%s.%s:pub" % (TOKEN_ADT, fld["name"]), "", "the flag field is public: anyone can reset it", {})
+
+
 def run(ctx):
     facts = ctx.facts("default")
     rb = runner_bodies(facts)
@@ -304,6 +341,8 @@ def run(ctx):
     rule_r2(facts, ctx, rb)
     rule_r3(facts, ctx, rb)
     rule_r4(facts, ctx, rb)
+    rule_r5(facts, ctx)
+    ctx.floor("C07.R5", 1, "CancellationToken::cancel stores true")
     from .. import controls
     controls.expect(ctx, "C07.R1", rule_r1, "BadRunner", "expect() on a block error")
     controls.expect(ctx, "C07.R2", rule_r2, "BadRunner", "error never returned")
